@@ -60,6 +60,9 @@ def run(ctx):
     if neg["ok"] or not tlc_is_spec_violation(neg):
         raise ToolError("negative control failed: model without the Arc guard was not rejected")
     ctx.stage("negative-control", cfg="UdpConc_MC_NoGuard.cfg", error=neg["error"])
+    if not quick:
+        live = run_tlc(ctx, "UdpConc_MC", "UdpConc_MC_Live.cfg", workers=4, timeout=1200)
+        require_mc_ok(ctx, live, "UdpConc termination under weak fairness")
     # 2. schedules from the model
     g1 = run_tlc(ctx, "UdpConc_Gen", "UdpConc_Gen.cfg", workers=1, timeout=900, name="gen_bfs")
     nsim = 300 if quick else 1500
